@@ -41,7 +41,7 @@ ORCH = 'chainables.orchestrate'
 
 
 def run(ctx: Ctx):
-  for r in (r1, r2, r3, r4, r5, r6, r7, r8, r9, r11, r12, r13, r14, r15, r16):
+  for r in (r1, r2, r3, r4, r5, r6, r7, r8, r9, r11, r12, r13, r14, r15, r16, r17, r18):
     ctx.guard(r)
   from mlmverif.props import c06
   ctx.include('R-C20-10', '"liveness is a function only of the last recorded heartbeat": the'
@@ -1386,12 +1386,101 @@ def r16(ctx: Ctx):
   ctx.floor(rule, 3, n)
 
 
+def r17(ctx: Ctx):
+  rule = 'R-C20-17'
+  ctx.rule(rule, '"a worker that was declared dead is never reported alive again merely because of a late or stale heartbeat": the'
+           ' dead marker (the None entry) is what makes refresh() ignore a late heartbeat, so it is PERMANENT: no method of'
+           ' the registry removes entries (`del self.data[...]`, pop, popitem, clear) — a tombstone dropped by a clean-up'
+           ' (e.g. when another worker registers) lets the next stale refresh of the dead worker record a time, and the'
+           ' worker is alive again')
+  ci = ctx.repo.cls(CU, 'WorkerRegistry')
+  n = 0
+  for name, fi in ci.methods.items():
+    n += 1
+    bad = None
+    for x in ast.walk(fi.node):
+      if isinstance(x, ast.Delete) and any('self.data' in unparse(t) or unparse(t).startswith('self[') for t in x.targets):
+        bad = x
+      if isinstance(x, ast.Call) and isinstance(x.func, ast.Attribute) and x.func.attr in ('pop', 'popitem', 'clear') and (
+          unparse(x.func.value) in ('self.data', 'self')):
+        bad = x
+    what = f'WorkerRegistry.{name}: no entry (dead marker) is ever removed'
+    if bad is not None:
+      ctx.fail(rule, fi, what,
+               f'`{unparse(bad)[:60]}` in WorkerRegistry.{name} removes entries: with its tombstone gone, a dead worker\'s late'
+               ' heartbeat is recorded like a first one and the worker is reported alive again', node=bad)
+    else:
+      ctx.ok(rule, fi, what, fi.node)
+  ctx.floor(rule, 4, n)
+
+
+def r18(ctx: Ctx):
+  rule = 'R-C20-18'
+  ctx.rule(rule, '"when a pool-level operation returns or raises, none of its workers remains acquired": the worker returned by'
+           ' `next_idle_worker(..., maybe_acquire=True)` is ALREADY acquired. The test that decides whether it is used'
+           ' is a pure None / truth test of that result — a further conjunct (`worker is not None and <something else>`)'
+           ' opens a path on which an acquired worker is neither registered as busy nor released: it stays owned by the'
+           ' pool after the operation returns')
+  repo = ctx.repo
+  n = 0
+  for fi in repo.all_functions():
+    if not fi.module.name.endswith(('courier_worker', 'orchestrate')):
+      continue
+    for scope in [fi.node] + [x for x in ast.walk(fi.node) if isinstance(x, (ast.FunctionDef, ast.AsyncFunctionDef)) and x is not fi.node]:
+      acquired = set()
+      for x in walk_no_nested(scope):
+        v = x.value if isinstance(x, (ast.Assign, ast.NamedExpr)) else None
+        if isinstance(v, ast.Call) and isinstance(v.func, ast.Attribute) and v.func.attr == 'next_idle_worker' and (
+            isinstance(kwarg(v, 'maybe_acquire'), ast.Constant) and kwarg(v, 'maybe_acquire').value is True):
+          tg = x.targets[0] if isinstance(x, ast.Assign) else x.target
+          if isinstance(tg, ast.Name):
+            acquired.add(tg.id)
+      if not acquired:
+        continue
+      for t in walk_no_nested(scope):
+        if not isinstance(t, (ast.If, ast.While)):
+          continue
+        test = t.test
+        if not (isinstance(test, ast.BoolOp) and isinstance(test.op, ast.And)):
+          continue
+        # only a POSITIVE test (`w is not None`, bare `w`) leaves an acquired worker behind when a later conjunct fails
+        def positive(v):
+          if isinstance(v, ast.Name) and v.id in acquired:
+            return True
+          return (isinstance(v, ast.Compare) and isinstance(v.left, ast.Name) and v.left.id in acquired and len(v.ops) == 1
+                  and isinstance(v.ops[0], ast.IsNot) and isinstance(v.comparators[0], ast.Constant) and v.comparators[0].value is None)
+        idx = [i for i, v in enumerate(test.values) if positive(v)]
+        walrus = [i for i, v in enumerate(test.values) if any(isinstance(y, ast.NamedExpr) and isinstance(y.target, ast.Name)
+                                                              and y.target.id in acquired for y in ast.walk(v))]
+        for i in idx + walrus:
+          if i < len(test.values) - 1:
+            n += 1
+            w = next(iter(acquired))
+            released_else = any(isinstance(c, ast.Call) and isinstance(c.func, ast.Attribute) and c.func.attr == 'release'
+                                for b in t.orelse for c in ast.walk(b))
+            what = f'{fi.qualname}: the acquired worker is used whenever it is not None'
+            if released_else:
+              ctx.ok(rule, fi, what, t)
+            else:
+              ctx.fail(rule, fi, what,
+                       f'`{unparse(test)[:80]}` tests something else AFTER the worker was acquired: when that part is false the worker'
+                       ' is acquired but neither put to work nor released — it stays owned by this pool for good', node=t)
+      n += 1
+      ctx.ok(rule, fi, f'{fi.qualname}: acquisition results examined', scope)
+  ctx.floor(rule, 2, n)
+
+
 from mlmverif.selfcheck import B, OK  # noqa: E402
 
 _U = 'utils/courier_utils.py'
 _W = 'chainables/courier_worker.py'
 _O = 'chainables/orchestrate.py'
 VARIANTS = [
+    B('registration-drops-the-tombstones', 'utils/courier_utils.py',
+      "    with self._lock:\n      self.data[address] = time_\n    logging.info('chainable: %s', f'registering worker",
+      "    with self._lock:\n      for dead in [k for k, v in self.data.items() if v is None]:\n        del self.data[dead]\n      self.data[address] = time_\n    logging.info('chainable: %s', f'registering worker", 'R-C20-17'),
+    B('stage-drops-a-worker-it-just-acquired', 'chainables/orchestrate.py',
+      "          if worker is not None:\n            remote_iterator = worker.async_iter(", "          if worker is not None and not result_q.enqueue_done:\n            remote_iterator = worker.async_iter(", 'R-C20-18'),
     B('dead-marker-deferred-to-the-shutdown-callback', 'utils/courier_utils.py',
       "    self._pendings = []\n    _worker_registry.unregister(self.address)\n    return self.state",
       "    self._pendings = []\n    self.state.add_done_callback(lambda f: (not f.cancelled() and f.exception() is None) and _worker_registry.unregister(self.address))\n    return self.state", 'R-C20-15'),
